@@ -468,6 +468,36 @@ fn endpoint_call(out: &mut Out, rng: &mut Rng, st: &Sync) {
     let cc = rng.range(0, tipc as u64 + 1) as u32;
     let tip = can::with_state(can::state::main_chain_height);
     let start = rng.range(0, tip as u64 + 1) as u32;
+    // the filter of a get_utxos call: min_confirmations, none, or a page (a genuine next-page token
+    // of the same address obtained through the ungated hook, or arbitrary bytes of any length)
+    let filter = match rng.below(10) {
+        0..=4 => c::Filter::MinConf(cc),
+        5 | 6 => c::Filter::None,
+        _ => {
+            let genuine = if rng.chance(2, 3) {
+                match c::get_utxos(&addr_text, net, &c::Filter::None, Some(1 + rng.below(3) as usize)) {
+                    c::QRes::Ok(r) => r.next_page,
+                    _ => None,
+                }
+            } else {
+                None
+            };
+            match genuine {
+                Some(mut p) => {
+                    // sometimes damaged: one byte changed (unknown tip / other position) or cut
+                    match rng.below(6) {
+                        0 => { let i = rng.below(p.len() as u64) as usize; p[i] ^= 1 << rng.below(8); }
+                        1 => { p.pop(); }
+                        _ => {}
+                    }
+                    c::Filter::Page(p)
+                }
+                None => { let n = *rng.pick(&[0usize, 1, 32, 71, 72, 72, 73, 100]); c::Filter::Page(rng.bytes(n)) }
+            }
+        }
+    };
+    // an explicit end height for get_block_headers (below start, inside, at and beyond the tip)
+    let end_height: Option<u32> = if rng.chance(1, 2) { None } else { Some(rng.range(0, tip as u64 + 3) as u32) };
     can::verif_hooks::set_cycles_available(Some(avail));
     can::verif_hooks::reset_cycles_balance();
     can::verif_hooks::set_performance_counter_step(0);
@@ -478,11 +508,15 @@ fn endpoint_call(out: &mut Out, rng: &mut Rng, st: &Sync) {
             let req = ic_btc_interface::GetUtxosRequest {
                 address: addr_text.clone(),
                 network: req_net_spelled,
-                filter: Some(ic_btc_interface::UtxosFilterInRequest::MinConfirmations(cc)),
+                filter: match &filter {
+                    c::Filter::None => None,
+                    c::Filter::MinConf(c) => Some(ic_btc_interface::UtxosFilterInRequest::MinConfirmations(*c)),
+                    c::Filter::Page(p) => Some(ic_btc_interface::UtxosFilterInRequest::Page(serde_bytes::ByteBuf::from(p.clone()))),
+                },
             };
             match c::guarded(|| if ep == "get_utxos" { can::get_utxos(req) } else { can::get_utxos_query(req) }) {
                 Err(m) => format!("trap {}", refusal_kind(&m)),
-                Ok(Ok(r)) => format!("ok {}", r.tip_height),
+                Ok(Ok(r)) => format!("ok {} n={} next={}", r.tip_height, r.utxos.len(), r.next_page.is_some() as u8),
                 Ok(Err(_)) => "err".into(),
             }
         }
@@ -495,10 +529,10 @@ fn endpoint_call(out: &mut Out, rng: &mut Rng, st: &Sync) {
             }
         }
         "get_block_headers" => {
-            let req = ic_btc_interface::GetBlockHeadersRequest { start_height: start, end_height: None, network: req_net_spelled };
+            let req = ic_btc_interface::GetBlockHeadersRequest { start_height: start, end_height, network: req_net_spelled };
             match c::guarded(|| can::get_block_headers(req)) {
                 Err(m) => format!("trap {}", refusal_kind(&m)),
-                Ok(Ok(r)) => format!("ok {}", r.tip_height),
+                Ok(Ok(r)) => format!("ok {} n={}", r.tip_height, r.block_headers.len()),
                 Ok(Err(_)) => "err".into(),
             }
         }
@@ -518,8 +552,15 @@ fn endpoint_call(out: &mut Out, rng: &mut Rng, st: &Sync) {
     can::verif_hooks::performance_counter_reset();
     let unchanged = before == summary();
     out.count(&format!("call:{}:{}", ep, result.split(' ').next().unwrap()));
+    if ep.starts_with("get_utxos") {
+        out.count(&format!("call-filter:{}:{}", c::filter_text(&filter).split(|ch| ch == '=').next().unwrap(), result.split(' ').next().unwrap()));
+    }
+    if ep == "get_block_headers" {
+        out.count(&format!("call-end:{}:{}", if end_height.is_some() { "some" } else { "none" }, result.split(' ').next().unwrap()));
+    }
     out.emit(
-        &format!("c call {} {} {} {} {} {} {}", ep, req_net_tok, avail, instructions, addr_tok, cc, start),
+        &format!("c call {} {} {} {} {} {} {} {} {}", ep, req_net_tok, avail, instructions, addr_tok, cc, start,
+            c::filter_text(&filter), end_height.map(|e| e.to_string()).unwrap_or("-".into())),
         &format!("{} accepted={} unchanged={}", result, accepted, unchanged as u8),
     );
 }
